@@ -42,6 +42,8 @@ pub enum Act {
     InEst(usize, usize),
     InFail(usize),
     Close(usize),
+    /// a local protocol shuts down (its `TransportService` is dropped and unregistered)
+    DropSvc(usize),
 }
 
 impl Act {
@@ -64,6 +66,7 @@ impl Act {
             Act::InEst(n, p) => json!(["InEst", n, p]),
             Act::InFail(n) => json!(["InFail", n]),
             Act::Close(n) => json!(["Close", n]),
+            Act::DropSvc(i) => json!(["DropSvc", i]),
         }
     }
     fn from_json(v: &Value) -> Option<Act> {
@@ -87,6 +90,7 @@ impl Act {
             "InEst" => Act::InEst(u(1)?, u(2)?),
             "InFail" => Act::InFail(u(1)?),
             "Close" => Act::Close(u(1)?),
+            "DropSvc" => Act::DropSvc(u(1)?),
             _ => return None,
         })
     }
@@ -420,6 +424,15 @@ impl Exec {
                         self.world.close(cid)
                     }
                     None => false,
+                }
+            }
+            Act::DropSvc(i) => {
+                if self.world.services.get(*i).map(|s| s.1.is_some()).unwrap_or(false) {
+                    self.world.drop_service(*i);
+                    self.stat("protocols_shut_down");
+                    true
+                } else {
+                    false
                 }
             }
         };
@@ -1032,7 +1045,7 @@ fn random_act(e: &Exec, rng: &mut Rng, npeers: usize) -> Act {
         (s.pending_dials.len(), s.pending_opens.len(), s.negotiating.len(), s.inbound_accepted.len(), s.live.len())
     };
     loop {
-        match rng.usize(16) {
+        match rng.usize(17) {
             0 => return Act::DialPeer(rng.usize(npeers)),
             1 => return Act::DialAddr(rng.usize(npeers), rng.usize(4)),
             2 => return Act::HandleDial(rng.usize(npeers)),
@@ -1055,6 +1068,8 @@ fn random_act(e: &Exec, rng: &mut Rng, npeers: usize) -> Act {
                 return if rng.chance(0.8) { Act::InEst(rng.usize(ni), if rng.chance(0.7) { rng.usize(npeers) } else { 1000 }) } else { Act::InFail(rng.usize(ni)) }
             }
             14 | 15 if nl > 0 => return Act::Close(rng.usize(nl)),
+            // (only one of the two protocols: a node without any protocol releases every connection at once)
+            16 if rng.chance(0.25) => return Act::DropSvc(0),
             _ => {}
         }
     }
